@@ -1,6 +1,6 @@
 """C01 -- longest match / first rule / pattern language against the reference model."""
 import os
-from .. import util, common, gen, pat, stream, model
+from .. import util, common, gen, pat, stream, model, known
 
 FLAVOURS = ["nr", "r", "c99"]
 TABLES = [(), (), ("-Cem",), ("-Ce",), ("-Cm",), ("-C",), ("-Cfe",), ("-CFe",), ("-Cfa",), ("-Ca",)]
@@ -89,6 +89,7 @@ def large_case(g, rng, seed32):
 
 def run(pid, tier):
     chk = common.Check(pid, tier)
+    known.replay_known(chk)
     chk.rule = ("case = random rule set (1-12 rules, or a 'large' profile) printed in random "
                 "documented spellings + model-guided inputs; evaluation = one scanner run "
                 "co-simulated with the reference model; non-trivial = run with >= 3 events; "
